@@ -25,6 +25,10 @@ fn c18_perm() {
     // a resource that needs nothing is always injectable; one that needs a bit is never injectable by the default mask
     assert!(PermissionMask::from_bits(0).is_injectable_by(granted), "P:perm.zero_needs_nothing");
     assert!(r == 0 || !required.is_injectable_by(PermissionMask::default()), "P:perm.default_grants_nothing");
+    // the per-host permission of an injection is the union of the permissions of the rules that requested it
+    let mut acc = required;
+    acc |= granted;
+    assert!(acc.0 == (r | f) && (required | granted).0 == (r | f), "P:perm.union_of_rule_permissions");
     kani::cover!(got && r != 0, "W:perm.granted_nonzero");
     kani::cover!(!got, "W:perm.refused");
 }
